@@ -85,7 +85,7 @@ type matrixIterator struct {
 	closer   context.CancelFunc
 	metadata *birch.Document
 	document *birch.Document
-	pipe     chan *birch.Document
+	pipe     chan iteratorItem
 	catcher  util.Catcher
 	reflect  bool
 }
@@ -101,12 +101,13 @@ func (iter *matrixIterator) Err() error                { return iter.catcher.Res
 func (iter *matrixIterator) Metadata() *birch.Document { return iter.metadata }
 func (iter *matrixIterator) Document() *birch.Document { return iter.document }
 func (iter *matrixIterator) Next() bool {
-	doc, ok := <-iter.pipe
+	item, ok := <-iter.pipe
 	if !ok {
 		return false
 	}
 
-	iter.document = doc
+	iter.document = item.document
+	iter.metadata = item.metadata
 	return true
 }
 
@@ -141,7 +142,7 @@ func (iter *matrixIterator) worker(ctx context.Context) {
 		}
 
 		select {
-		case iter.pipe <- doc:
+		case iter.pipe <- iteratorItem{document: doc, metadata: chunk.GetMetadata()}:
 			continue
 		case <-ctx.Done():
 			iter.catcher.Add(errors.New("operation aborted"))
